@@ -120,13 +120,17 @@ class TraceModel:
         return p, l, cs, avail, Kp, newest, saved
 
 
-def materialise(tm, p, l, plain, args, work):
-    d = os.path.join(work, 'crash-%d-%d' % (p, l)); shutil.rmtree(d, ignore_errors=True); os.makedirs(d)
+def materialise(tm, p, l, plain, args, work, second=0):
+    """second = k: the restarted run is itself killed at the start of its k-th model call (a second crash, between file-system operations), then restarted again"""
+    d = os.path.join(work, 'crash-%d-%d%s' % (p, l, '-s%d' % second if second else '')); shutil.rmtree(d, ignore_errors=True); os.makedirs(d)
     st = tm.state(p, l)
     for f, name in (('ck', 'ck'), ('old', 'ck_old')):
         v, content = st[f]
         if v > 0: open(os.path.join(d, name), 'wb').write(content)
     try:
+        if second:
+            r = subprocess.run([plain] + args + [d], capture_output=True, text=True, timeout=120, env=dict(os.environ, ASAN_OPTIONS='detect_leaks=0:exitcode=77', VERIF_DIE_AT_CALL=str(second)), errors='replace')
+            died = (r.returncode == 9)
         r = subprocess.run([plain] + args + [d], capture_output=True, text=True, timeout=120, env=dict(os.environ, ASAN_OPTIONS='detect_leaks=0:exitcode=77'), errors='replace')
         rc, out, err = r.returncode, r.stdout, r.stderr
     except subprocess.TimeoutExpired:
@@ -208,14 +212,35 @@ def run_config(name, sp, budget, batch, tier):
                 c = ask([p == q, l >= len(tm.ev[q][2]) - 1], 'torn-tail class at %d' % q)
                 if c: reps.append(c)
     out['classes'] = len(reps)
-    known_bad = set((v['p'], v['l']) for v in out['violations'])
+    known_bad = set((v['p'], v['l']) for v in out['violations']); single_calls = {}
     for (q, tl) in reps:
         res = materialise(tm, q, tl, plain, args, work); out['replays'] += 1
+        single_calls[(q, tl)] = res.get('calls', 0)
         probs = judge(tm, q, tl, res, budget, given)
         if probs and (q, tl) not in known_bad:
             # the real code misbehaves on a state the invariant queries did not flag: report with the observation
             ev = tm.ev[q] if q < tm.N else ('end',)
             out['violations'].append({'label': 'restart from a crash state violates the recovery requirements [' + classify(tm, q, tl, name, probs) + ']', 'p': q, 'l': tl, 'desc': 'crash at trace position %d of %d (%s), torn bytes %d' % (q, tm.N, ev[0], tl), 'confirmed': True, 'observed': probs, 'recovery': res})
+        shutil.rmtree(res['dir'], ignore_errors=True)
+    # two-crash histories: the restarted run recovers, rewrites its initial checkpoint and is killed in its first model call (before any new
+    # sample is saved); the next restart must still find an image that holds what the recovered image held
+    second = [(q, tl) for (q, tl) in reps if max(avail_of(tm, 'ck', (q, tl)), avail_of(tm, 'old', (q, tl))) >= 0 and (q, tl) not in known_bad]
+    if tier == 'quick': second = second[::max(1, len(second) // 6)]
+    for (q, tl) in second:
+        a = max(avail_of(tm, 'ck', (q, tl)), avail_of(tm, 'old', (q, tl)))
+        if tm.B_calls[a] < 1: continue
+        res = materialise(tm, q, tl, plain, args, work, second=1); out['replays'] += 1; out['two_crash_histories'] = out.get('two_crash_histories', 0) + 1
+        probs = judge(tm, q, tl, res, budget, given)
+        # after the second crash the samples of image a are what must survive (the first run may have saved more in a later, torn checkpoint: K(p) is not the reference here)
+        probs = [x for x in probs if not x.startswith('re-computes')]
+        e2 = res.get('calls', 0) - (budget - tm.B_calls[a]); e1 = single_calls.get((q, tl), 0) - (budget - tm.B_calls[a])
+        if e2 > 0 and e1 >= e2:
+            # the single-crash restart from the same image already re-computes as many samples: the second crash adds nothing, this is the observation of the single-crash class
+            probs.append('re-computes %d samples although the recovered image held %d (at most %d allowed), two-crash history - the single-crash restart from the same image re-computes as many' % (res['calls'], tm.B_calls[a], budget - tm.B_calls[a]))
+        elif e2 > 0: probs.append('after a second crash in the first model call of the restarted run: re-computes %d samples although the image it recovered from held %d (at most %d allowed)' % (res['calls'], tm.B_calls[a], budget - tm.B_calls[a]))
+        if probs:
+            ev = tm.ev[q] if q < tm.N else ('end',)
+            out['violations'].append({'label': 'two crashes: restart, crash in the first model call of the restarted run, restart again [' + classify(tm, q, tl, name, probs) + ']', 'p': q, 'l': tl, 'desc': 'first crash at trace position %d of %d (%s), torn bytes %d; second crash at the first model call of the restarted run' % (q, tm.N, ev[0], tl), 'confirmed': True, 'observed': probs})
         shutil.rmtree(res['dir'], ignore_errors=True)
     out['wall'] = time.time() - t0
     shutil.rmtree(work, ignore_errors=True)
